@@ -522,6 +522,45 @@ class FuncAnalysis:
             self.stmt(st, env)
 
 
+_SUMMARY_CACHE = {}
+
+
+def cached_summaries(repo):
+    key = id(repo)
+    if key not in _SUMMARY_CACHE:
+        _SUMMARY_CACHE.clear()
+        _SUMMARY_CACHE[key] = compute_summaries(repo)
+    return _SUMMARY_CACHE[key]
+
+
+def rule_pure(repo, rid, text, targets, floor=None, allow_self=True):
+    """targets: [(module, qualname)].  No target writes in place into a tensor argument (or, for allow_self=False, into self state)
+    or into storage shared between calls."""
+    from .core import RuleResult, Finding
+    res = RuleResult(rid, text, floor=floor if floor is not None else len(targets))
+    S, _ = cached_summaries(repo)
+    for mod, q in targets:
+        f = repo.func(mod, q)
+        s = S[f.fq]
+        bad = []
+        for (pi, path) in sorted(s.mut, key=str):
+            pname = f.params[pi] if pi < len(f.params) else '?'
+            if pi == 0 and f.cls is not None and not f.is_static() and allow_self:
+                continue
+            bad.append((pi, path, pname))
+        res.inst({'function': f.fq, 'mutated': ['%s%s' % (p, ''.join('.' + x for x in path)) for _, path, p in bad], 'shared': sorted(s.shared)}, f.fq)
+        for pi, path, pname in bad:
+            node, why, chain = s.sinks[(pi, path)]
+            res.add(Finding(rid, f, '%s overwrites its argument `%s%s` in place (%s%s): the caller\'s tensor is changed, a second call with the same '
+                            'objects starts from different data' % (q, pname, ''.join('.' + x for x in path), why,
+                                                                     (' via ' + ' -> '.join(chain)) if chain else ''),
+                            node=node if isinstance(node, ast.AST) else None, construct='param <- %s%s' % (pname, ''.join('.' + x for x in path))))
+        for lab, (node, why, chain) in s.shared.items():
+            res.add(Finding(rid, f, '%s writes in place into %s (%s)' % (q, lab, why), node=node if isinstance(node, ast.AST) else None,
+                            construct='shared <- ' + lab))
+    return res
+
+
 def compute_summaries(repo, max_rounds=12, only_module=None):
     funcs = [f for f in repo.all_functions() if only_module is None or f.module.name == only_module]
     S = {f.fq: Summary() for f in repo.all_functions()}
